@@ -98,6 +98,7 @@ type configIn struct {
 	IndexCache  bool    `json:"cache"`
 	Repeat      int     `json:"repeat"` // how many times the query is sent (cache warm-up)
 	MaxGap      uint64  `json:"max_gap"`
+	EstSeries   uint64  `json:"est_series,omitempty"` // WithBlockEstimatedMaxSeriesFunc (0: from meta.json); 1 forces lazy marking
 	DontResort  bool    `json:"-"`
 	description string
 }
@@ -111,6 +112,7 @@ type input struct {
 	Matchers []matcherIn `json:"matchers"`
 	Mint     int64       `json:"mint"`
 	Maxt     int64       `json:"maxt"`
+	History  [][2]int64  `json:"history,omitempty"` // time ranges queried one after the other on the same store (same matchers); empty: [[mint, maxt]]
 	Configs  []configIn  `json:"configs"`
 }
 
@@ -323,7 +325,7 @@ func mtype(t string) (labels.MatchType, storepb.LabelMatcher_Type, error) {
 	return 0, 0, fmt.Errorf("bad matcher type %q", t)
 }
 
-func runStore(bb *builtBlock, in input, cfg configIn, req *storepb.SeriesRequest) ([][]answer, error) {
+func runStore(bb *builtBlock, in input, cfg configIn, req *storepb.SeriesRequest, hist [][2]int64) ([][]answer, error) {
 	ctx := context.Background()
 	dir, err := os.MkdirTemp("", "c10-store-")
 	if err != nil {
@@ -342,6 +344,10 @@ func runStore(bb *builtBlock, in input, cfg configIn, req *storepb.SeriesRequest
 	}
 	if cfg.Lazy {
 		opts = append(opts, store.WithSeriesMatchRatio(cfg.MatchRatio), store.WithPostingGroupMaxKeySeriesRatio(cfg.KeyRatio))
+	}
+	if cfg.EstSeries > 0 {
+		est := cfg.EstSeries
+		opts = append(opts, store.WithBlockEstimatedMaxSeriesFunc(func(_ metadata.Meta) uint64 { return est }))
 	}
 	if cfg.IndexCache {
 		ic, err := storecache.NewInMemoryIndexCacheWithConfig(log.NewNopLogger(), nil, nil, storecache.InMemoryIndexCacheConfig{MaxSize: 1 << 24, MaxItemSize: 1 << 20})
@@ -362,9 +368,10 @@ func runStore(bb *builtBlock, in input, cfg configIn, req *storepb.SeriesRequest
 		return nil, err
 	}
 	var out [][]answer
-	for k := 0; k < cfg.Repeat; k++ {
+	for _, tr := range hist {
 		srv := &seriesServer{ctx: ctx}
 		r := *req
+		r.MinTime, r.MaxTime = tr[0], tr[1]
 		if err := st.Series(&r, srv); err != nil {
 			return nil, fmt.Errorf("Series: %w", err)
 		}
@@ -483,7 +490,7 @@ func run(raw json.RawMessage) (common.Case, error) {
 	}
 	ext := labels.FromStrings(in.Ext...)
 	var pms []*labels.Matcher
-	req := &storepb.SeriesRequest{MinTime: in.Mint, MaxTime: in.Maxt, MaxResolutionWindow: 0, Aggregates: []storepb.Aggr{storepb.Aggr_RAW}}
+	req := &storepb.SeriesRequest{MaxResolutionWindow: 0, Aggregates: []storepb.Aggr{storepb.Aggr_RAW}}
 	var msCoq []string
 	nonExt := 0
 	for _, m := range in.Matchers {
@@ -521,41 +528,83 @@ func run(raw json.RawMessage) (common.Case, error) {
 			extOK = false
 		}
 	}
-	oracle, err := runOracle(bb, pms, ext, in.Mint, in.Maxt)
-	if err != nil {
-		return c, err
+	base := in.History
+	if len(base) == 0 {
+		base = [][2]int64{{in.Mint, in.Maxt}}
+	}
+	oracles := map[[2]int64][]answer{}
+	var oracleCoq []string
+	maxOracle, minOracle := 0, 1<<30
+	for _, tr := range base {
+		if _, ok := oracles[tr]; ok {
+			continue
+		}
+		o, err := runOracle(bb, pms, ext, tr[0], tr[1])
+		if err != nil {
+			return c, err
+		}
+		oracles[tr] = o
+		oracleCoq = append(oracleCoq, common.Tuple(common.Z(tr[0]), common.Z(tr[1]), answersCoq(o)))
+		if len(o) > maxOracle {
+			maxOracle = len(o)
+		}
+		if len(o) < minOracle {
+			minOracle = len(o)
+		}
 	}
 	var impls []string
 	type cfgObs struct {
 		Config configIn
+		Range  [2]int64
 		Series int
 		Differ bool
 	}
 	var obs []cfgObs
 	for _, cfg := range in.Configs {
-		outs, err := runStore(bb, in, cfg, req)
+		hist := base
+		for k := 1; k < cfg.Repeat; k++ { // old-style inputs: the whole history again on the warm store
+			hist = append(append([][2]int64{}, hist...), base...)
+		}
+		outs, err := runStore(bb, in, cfg, req, hist)
 		if err != nil {
 			return c, err
 		}
+		var steps []string
 		for k, as := range outs {
-			impls = append(impls, answersCoq(as))
+			tr := hist[k]
+			steps = append(steps, common.Tuple(common.Z(tr[0]), common.Z(tr[1]), answersCoq(as)))
+			oracle := oracles[tr]
 			differ := fmt.Sprint(as) != fmt.Sprint(oracle)
 			if differ && c.GoPred == "" {
-				c.GoPred = fmt.Sprintf("store gateway answer differs from the TSDB read (config %+v, query #%d): %d vs %d series", cfg, k+1, len(as), len(oracle))
+				c.GoPred = fmt.Sprintf("store gateway answer differs from the TSDB read of the same range (config %+v, query #%d of the history %v, range %v): %d vs %d series", cfg, k+1, hist, tr, len(as), len(oracle))
 				c.Sig = "series-differ"
+				if k > 0 {
+					c.Sig = "series-differ-warm"
+				}
 			}
-			obs = append(obs, cfgObs{cfg, len(as), differ})
+			obs = append(obs, cfgObs{cfg, tr, len(as), differ})
 		}
+		impls = append(impls, common.List(steps))
 	}
 	var idx []string
 	for _, s := range bb.series {
 		idx = append(idx, common.Pair(lsCoq(lsetStrings(s.lset)), chunksCoq(s.chks)))
 	}
 	c.Coq = common.App("CSel", common.List(idx), lsCoq(in.Ext), common.Bool(extOK), common.List(msCoq),
-		common.Z(in.Mint), common.Z(in.Maxt), common.List(impls), answersCoq(oracle))
-	c.Obs = map[string]any{"oracle_series": len(oracle), "runs": obs}
-	c.Nontrivial = len(oracle) >= 1 && len(oracle) < len(bb.series) && len(in.Matchers) >= 2
-	c.Class = fmt.Sprintf("matchers=%d/selected=%s", len(in.Matchers), selBucket(len(oracle), len(bb.series)))
+		common.List(impls), common.List(oracleCoq))
+	if len(obs) > 12 {
+		obs = obs[:12]
+	}
+	c.Obs = map[string]any{"oracle_series_max": maxOracle, "runs": obs}
+	c.Nontrivial = maxOracle >= 1 && maxOracle < len(bb.series) && len(in.Matchers) >= 2
+	hk := "single"
+	if len(base) > 1 {
+		hk = "history"
+		if minOracle < maxOracle {
+			hk = "history-varying"
+		}
+	}
+	c.Class = fmt.Sprintf("matchers=%d/selected=%s/%s", len(in.Matchers), selBucket(maxOracle, len(bb.series)), hk)
 	return c, nil
 }
 
@@ -745,21 +794,100 @@ func genMatchers(r *rand.Rand, series []seriesIn, ext []string) []matcherIn {
 func genConfigs(r *rand.Rand) []configIn {
 	base := configIn{BatchSize: 10000, Sampling: 32, Repeat: 1, MaxGap: 512 * 1024}
 	var out []configIn
-	out = append(out, base)
-	c := base
-	c.IndexCache, c.Repeat = true, 2
+	out = append(out, base) // eager, no index cache
+	c := base               // eager, index cache, small batches
+	c.IndexCache = true
 	c.Sampling = common.Pick(r, 1, 2, 3, 64)
 	c.BatchSize = common.Pick(r, 1, 2, 3, 7)
 	c.MaxGap = common.Pick(r, uint64(0), 1, 100, 512*1024)
 	out = append(out, c)
-	c = base
-	c.Lazy = true
-	c.MatchRatio = common.Pick(r, 0.000001, 0.05, 1.0)
-	c.KeyRatio = common.Pick(r, 0, 0.5, 100)
-	c.IndexCache, c.Repeat = r.Intn(2) == 0, 2
+	c = base // lazy postings that really trigger (tiny series size estimate), index cache
+	c.Lazy, c.IndexCache, c.EstSeries = true, true, 1
+	c.MatchRatio = common.Pick(r, 0.05, 0.05, 0.5, 1.0)
+	c.KeyRatio = common.Pick(r, 0, 0, 0.5, 100)
 	c.BatchSize = common.Pick(r, 1, 4, 10000)
 	out = append(out, c)
+	if r.Intn(2) == 0 { // lazy with the block's own estimate, extreme ratios, cache or not
+		c = base
+		c.Lazy = true
+		c.MatchRatio = common.Pick(r, 0.000001, 0.05, 1.0)
+		c.KeyRatio = common.Pick(r, 0, 0.5, 100)
+		c.IndexCache = r.Intn(2) == 0
+		c.EstSeries = common.Pick(r, uint64(0), 0, 8)
+		c.BatchSize = common.Pick(r, 1, 4, 10000)
+		out = append(out, c)
+	}
 	return out
+}
+
+// one time range; kinds as before
+func genRange(r *rand.Rand, series []seriesIn) [2]int64 {
+	var mint, maxt int64
+	tk := r.Intn(9)
+	if tk >= 6 { // more weight on ranges that contain data
+		tk = []int{0, 0, 4}[tk-6]
+	}
+	switch tk {
+	case 5: // exactly on a chunk boundary of some series
+		sp := series[r.Intn(len(series))]
+		n := sp.Count
+		if n > 120 {
+			n = 120
+		}
+		first, lastOfFirst := sp.Start, sp.Start+int64(n-1)*sp.Step
+		switch r.Intn(4) {
+		case 0:
+			mint, maxt = lastOfFirst, lastOfFirst+int64(r.Intn(3))*sp.Step
+		case 1:
+			mint, maxt = first-int64(r.Intn(30)), first
+		case 2:
+			mint, maxt = lastOfFirst+1, lastOfFirst+sp.Step
+		default:
+			mint, maxt = lastOfFirst+sp.Step, lastOfFirst+sp.Step
+		}
+	case 0:
+		mint, maxt = -1<<40, 1<<40
+	case 1:
+		mint, maxt = 0, int64(r.Intn(1500))
+	case 2:
+		mint = int64(r.Intn(3000))
+		maxt = mint + int64(r.Intn(50))
+	case 3:
+		mint = 1190 + int64(r.Intn(20)) // around a chunk boundary of dense series
+		maxt = mint + int64(r.Intn(20))
+	default:
+		mint = int64(r.Intn(4000))
+		maxt = mint + int64(r.Intn(3000))
+	}
+	return [2]int64{mint, maxt}
+}
+
+// a narrow window inside the data of one series (other, sparse series have no chunk there)
+func genNarrow(r *rand.Rand, series []seriesIn) [2]int64 {
+	sp := series[r.Intn(len(series))]
+	t := sp.Start + int64(r.Intn(sp.Count))*sp.Step
+	return [2]int64{t - int64(r.Intn(5)), t + int64(r.Intn(30))}
+}
+
+func genHistory(r *rand.Rand, series []seriesIn) [][2]int64 {
+	wide := [2]int64{-1 << 40, 1 << 40}
+	switch r.Intn(8) {
+	case 0:
+		return [][2]int64{genRange(r, series)}
+	case 1:
+		x := genRange(r, series)
+		return [][2]int64{x, x}
+	case 2, 3:
+		return [][2]int64{genNarrow(r, series), wide}
+	case 4:
+		return [][2]int64{wide, genNarrow(r, series)}
+	case 5:
+		return [][2]int64{genNarrow(r, series), genNarrow(r, series), wide, genRange(r, series)}
+	case 6:
+		return [][2]int64{genNarrow(r, series), genRange(r, series), wide}
+	default:
+		return [][2]int64{genRange(r, series), genRange(r, series), genRange(r, series)}
+	}
 }
 
 func gen(r *rand.Rand, tier string, n int) []any {
@@ -782,42 +910,8 @@ func gen(r *rand.Rand, tier string, n int) []any {
 			if !hasNonExt {
 				continue
 			}
-			tk := r.Intn(9)
-			if tk >= 6 { // more weight on ranges that contain data
-				tk = []int{0, 0, 4}[tk-6]
-			}
-			switch tk {
-			case 5: // exactly on a chunk boundary of some series (first sample, last sample of the first chunk, first of the second)
-				sp := series[r.Intn(len(series))]
-				n := sp.Count
-				if n > 120 {
-					n = 120
-				}
-				first, lastOfFirst := sp.Start, sp.Start+int64(n-1)*sp.Step
-				switch r.Intn(4) {
-				case 0:
-					in.Mint, in.Maxt = lastOfFirst, lastOfFirst+int64(r.Intn(3))*sp.Step
-				case 1:
-					in.Mint, in.Maxt = first-int64(r.Intn(30)), first
-				case 2:
-					in.Mint, in.Maxt = lastOfFirst+1, lastOfFirst+sp.Step
-				default:
-					in.Mint, in.Maxt = lastOfFirst+sp.Step, lastOfFirst+sp.Step
-				}
-			case 0:
-				in.Mint, in.Maxt = -1<<40, 1<<40
-			case 1:
-				in.Mint, in.Maxt = 0, int64(r.Intn(1500))
-			case 2:
-				in.Mint = int64(r.Intn(3000))
-				in.Maxt = in.Mint + int64(r.Intn(50))
-			case 3:
-				in.Mint = 1190 + int64(r.Intn(20)) // around a chunk boundary of dense series
-				in.Maxt = in.Mint + int64(r.Intn(20))
-			default:
-				in.Mint = int64(r.Intn(4000))
-				in.Maxt = in.Mint + int64(r.Intn(3000))
-			}
+			in.History = genHistory(r, series)
+			in.Mint, in.Maxt = in.History[0][0], in.History[0][1]
 			in.Configs = genConfigs(r)
 			out = append(out, in)
 		}
@@ -829,6 +923,6 @@ var _ = storage.SeriesRef(0)
 var _ = chunkenc.EncXOR
 
 func main() {
-	common.Main(common.Prop{ID: "C10", Facts: facts, Gen: gen, Run: run, QuickN: 180, ThoroughN: 2400,
+	common.Main(common.Prop{ID: "C10", Facts: facts, Gen: gen, Run: run, QuickN: 150, ThoroughN: 2000,
 		Preamble: "Open Scope Z_scope.\n"})
 }
